@@ -26,6 +26,19 @@ R18.8  the RMInfo attributes which size the node entries (read by
        _get_node_list, or put into the node tuples handed to it) are final
        when the entries are built: no store to them can follow on a path of
        init_from_scratch; _init_from_scratch only adjusts them afterwards
+R18.9  the marking of the blocked cores (GPUs) is reached whenever the
+       configured list of that kind is non-empty, whatever the other list
+       holds (guards evaluated over empty / non-empty lists)
+R18.10 _get_cores_per_node has no normal return for a node list with two or
+       more distinct slot counts (guard evaluated over the number of
+       distinct counts)
+R18.11 the registry key the RMInfo is written under is the key it is read
+       from (normal form of the string-building expressions)
+R18.12 an RM which consults rm_info.threads_per_core hands it to a parameter
+       of _parse_nodefile from which the returned slot count derives (or puts
+       it into the tuples itself)
+R18.13 a find()-cursor loop of an RM drops exactly the separator between two
+       chunks: chunk offset + advance offset == len(separator)
 """
 
 import ast
@@ -451,6 +464,122 @@ def _is_len_nl(f, expr):
     return False
 
 
+RESERVED = ('agent_node_list', 'service_node_list')
+_DEFS = (ast.FunctionDef, ast.AsyncFunctionDef)
+
+
+def _local_defs(f):
+    """{name: FunctionDef} of the functions defined inside f"""
+    return {n.name: n for n in ast.walk(f.node)
+            if isinstance(n, _DEFS) and n is not f.node}
+
+
+def _changes_node_list(h, helpers, depth=0):
+    """the local function h takes nodes out of / writes <x>.node_list (itself
+    or through another local function)"""
+    for kind, target, stmt in I.stores(h):
+        if _is_node_list(target) or isinstance(target, ast.Subscript) and \
+                _is_node_list(target.value):
+            return True
+    for c in calls_in(h):
+        if isinstance(c.func, ast.Name) and c.func.id in helpers and \
+                helpers[c.func.id] is not h and depth < 3 and \
+                _changes_node_list(helpers[c.func.id], helpers, depth + 1):
+            return True
+    return False
+
+
+def _bind_local(h, call, resolve):
+    """{parameter of the local function h: resolved argument of call}"""
+    a = h.args
+    pos = [x.arg for x in a.posonlyargs + a.args]
+    out = {}
+    for p, v in zip(pos, call.args):
+        if isinstance(v, ast.Starred):
+            break
+        out[p] = resolve(v)
+    names = set(pos) | {x.arg for x in a.kwonlyargs}
+    for k in call.keywords:
+        if k.arg in names:
+            out[k.arg] = resolve(k.value)
+    return out
+
+
+def reservations(f):
+    """[(receiver text, call, moved, source expr)]: the values added to
+    <x>.agent_node_list / <x>.service_node_list in f.  A local helper function
+    which adds to one of its parameters counts once per call that hands it one
+    of the two lists.  moved: True - the value is <x>.node_list.pop(..);
+    False - it is read from a list without leaving node_list; None - unknown"""
+    helpers = _local_defs(f)
+    out = []
+
+    def plain_defs(scope, name):
+        return [n.value for n in walk(scope) if isinstance(n, ast.Assign) and
+                any(isinstance(t, ast.Name) and t.id == name
+                    for t in n.targets)]
+
+    def scan(scope, binding, depth):
+
+        def resolve(e, d=0):
+            while isinstance(e, ast.Name) and d < 8:
+                d += 1
+                if e.id in binding:
+                    return binding[e.id]
+                defs = plain_defs(scope, e.id)
+                if len(defs) != 1:
+                    break
+                e = defs[0]
+            return e
+
+        def is_pop(v):
+            return isinstance(v, ast.Call) and \
+                isinstance(v.func, ast.Attribute) and v.func.attr == 'pop'
+
+        def moved(v):
+            v = resolve(v)
+            if is_pop(v):
+                return _is_node_list(resolve(v.func.value)), v
+            if isinstance(v, (ast.ListComp, ast.GeneratorExp)):
+                return moved(v.elt)
+            if isinstance(v, (ast.List, ast.Tuple)) and v.elts:
+                ms = [moved(x)[0] for x in v.elts]
+                return (True if all(m is True for m in ms) else
+                        False if any(m is False for m in ms) else None), v
+            if isinstance(v, ast.Subscript) and \
+                    _is_node_list(resolve(v.value)):
+                return False, v       # a reference: nothing is taken out
+            if isinstance(v, ast.Call) and call_name(v) in (
+                    'dict', 'copy.copy', 'copy.deepcopy') and v.args:
+                return moved(v.args[0])[0], v
+            if isinstance(v, (ast.Constant, ast.Dict)):
+                return False, v       # a new object
+            return None, v
+
+        for c in calls_in(scope):
+            if isinstance(c.func, ast.Attribute) and c.args and \
+                    c.func.attr in ('append', 'extend', 'insert'):
+                recv = resolve(c.func.value)
+                which = [r for r in RESERVED if _field(recv, r)]
+                if which:
+                    m, src = moved(c.args[-1])
+                    out.append((unparse(recv), c, m, src))
+            elif isinstance(c.func, ast.Name) and c.func.id in helpers and \
+                    helpers[c.func.id] is not scope and depth < 3:
+                h = helpers[c.func.id]
+                scan(h, _bind_local(h, c, resolve), depth + 1)
+        for n in walk(scope):
+            # <x>.agent_node_list += [..]
+            if isinstance(n, ast.AugAssign) and isinstance(n.op, ast.Add):
+                recv = resolve(n.target)
+                if any(_field(recv, r) for r in RESERVED):
+                    m, src = moved(n.value)
+                    out.append((unparse(recv), n, m, src))
+
+    scan(f.node, {}, 0)
+    return out
+
+
 def r18_3(prog, rep, rid='R18.3'):
     text = ('_filter_nodes: the list is cut to [:requested_nodes] whenever it '
             'is longer; agent and service nodes are pop()ped out of it; the '
@@ -517,9 +646,25 @@ def r18_3(prog, rep, rid='R18.3'):
               'node: the batch system allocates 3 nodes and all 3 are '
               'offered to the scheduler')
 
-    # (b) reservation by pop()
-    c01.r01_8(prog, rep, rid=rid)
-    rep.rule(rid, text, minimum=4)         # r01_8 registered its own wording
+    # (b) reservation by pop(): every value added to the agent / service list
+    # is taken out of node_list (also inside a local helper function which is
+    # given the reserved list as an argument)
+    res = reservations(f)
+    if len(res) < 2:
+        raise AnalysisError('%s: reservation of agent/service nodes not found '
+                            'in %s (%d site(s))' % (rid, f.where, len(res)))
+    for recv, call, moved, src in res:
+        if moved is None:
+            raise AnalysisError('UNRECOGNISED-IDIOM %s: cannot tell where the '
+                                'node added by `%s` comes from (`%s`)'
+                                % (f.where, short(call, 60), short(src, 50)))
+        rep.check(moved, rid, f, '%s receives a node pop()ped from node_list'
+                  % recv, construct='reserve:%s' % recv.split('.')[-1],
+                  message='%s receives a node that stays in node_list (`%s`): '
+                  'the agent/service node is also offered to tasks'
+                  % (recv, short(src, 50)), loc=f.loc(call),
+                  history='agent layout with a sub-agent on its own node: a '
+                  'task is placed on the sub-agent node')
     # the pops take from the list that is offered
     pops = [smap[id(c)] for c in calls_in(f.node)
             if isinstance(c.func, ast.Attribute) and c.func.attr == 'pop' and
@@ -531,6 +676,14 @@ def r18_3(prog, rep, rid='R18.3'):
         n = smap.get(id(stmt))
         if n is not None:
             changes.add(n.id)
+    # a local helper function changes the list where it is CALLED
+    helpers = _local_defs(f)
+    changing = {name for name, h in helpers.items()
+                if _changes_node_list(h, helpers)}
+    for c in calls_in(f.node):
+        if isinstance(c.func, ast.Name) and c.func.id in changing and \
+                id(c) in smap:
+            changes.add(smap[id(c)].id)
     cands, recognised = [], []
     for n in g.nodes:
         if n.kind != 'test':
@@ -593,7 +746,133 @@ def r18_3(prog, rep, rid='R18.3'):
 # ------------------------------------------------------------------------------
 # R18.4
 #
-def r18_4(prog, rep, table, rid='R18.4'):
+def _resolved(f, e, depth=0):
+    """copy of expression e in which the single-assignment locals of f and the
+    `self.<attr>` assigned exactly once in f (from a call-free expression over
+    self) are replaced by their definition; for comparison by ast.dump"""
+    import copy
+
+    def self_attr_def(attr):
+        defs = [n.value for n in walk(f.node) if isinstance(n, ast.Assign) and
+                any(isinstance(t, ast.Attribute) and t.attr == attr and
+                    isinstance(t.value, ast.Name) and t.value.id == 'self'
+                    for t in n.targets)]
+        return defs[0] if len(defs) == 1 else None
+
+    class R(ast.NodeTransformer):
+        def __init__(self):
+            self.depth = 0
+
+        def visit_Name(self, node):
+            if isinstance(node.ctx, ast.Load) and self.depth < 8:
+                v = _local_alias(f, node.id)
+                if v is not None:
+                    self.depth += 1
+                    out = self.visit(copy.deepcopy(v))
+                    self.depth -= 1
+                    return out
+            return node
+
+        def visit_Attribute(self, node):
+            if isinstance(node.ctx, ast.Load) and self.depth < 8 and \
+                    isinstance(node.value, ast.Name) and \
+                    node.value.id == 'self':
+                v = self_attr_def(node.attr)
+                if v is not None:
+                    self.depth += 1
+                    out = self.visit(copy.deepcopy(v))
+                    self.depth -= 1
+                    return out
+            return self.generic_visit(node)
+
+    return R().visit(copy.deepcopy(e))
+
+
+def key_parts(f, e, depth=0):
+    """normal form of a string-building expression: [('s', text) | ('e', the
+    resolved expression unparsed)] with adjacent texts merged, so that
+    'rm.%s' % x, f'rm.{x}', 'rm.' + x, 'rm.{}'.format(x) and a local holding
+    any of them are equal.  Raises Unrecognised."""
+    def merge(parts):
+        out = []
+        for k, v in parts:
+            if k == 's' and not v:
+                continue
+            if k == 's' and out and out[-1][0] == 's':
+                out[-1] = ('s', out[-1][1] + v)
+            else:
+                out.append((k, v))
+        return out
+
+    def expr(x):
+        r = _resolved(f, x)
+        if isinstance(r, ast.Call) and call_name(r) == 'str' and \
+                len(r.args) == 1 and not r.keywords:
+            r = r.args[0]
+        return ('e', unparse(r))
+
+    if depth > 8:
+        raise Unrecognised('`%s`' % short(e, 50))
+    if isinstance(e, ast.Constant) and isinstance(e.value, str):
+        return merge([('s', e.value)])
+    if isinstance(e, ast.Name):
+        v = _local_alias(f, e.id)
+        if v is not None:
+            return key_parts(f, v, depth + 1)
+        return [expr(e)]
+    if isinstance(e, ast.JoinedStr):
+        parts = []
+        for v in e.values:
+            if isinstance(v, ast.Constant):
+                parts.append(('s', str(v.value)))
+            elif isinstance(v, ast.FormattedValue) and \
+                    v.format_spec is None and v.conversion in (-1, 115):
+                parts += key_parts(f, v.value, depth + 1) \
+                    if isinstance(v.value, (ast.Constant, ast.Name)) \
+                    else [expr(v.value)]
+            else:
+                raise Unrecognised('`%s`' % short(e, 50))
+        return merge(parts)
+    if isinstance(e, ast.BinOp) and isinstance(e.op, ast.Add):
+        return merge(key_parts(f, e.left, depth + 1) +
+                     key_parts(f, e.right, depth + 1))
+    if isinstance(e, ast.BinOp) and isinstance(e.op, ast.Mod) and \
+            isinstance(e.left, ast.Constant) and isinstance(e.left.value, str):
+        args = list(e.right.elts) if isinstance(e.right, ast.Tuple) \
+            else [e.right]
+        texts = e.left.value.split('%s')
+        if len(texts) != len(args) + 1 or any('%' in t.replace('%%', '')
+                                              for t in texts):
+            raise Unrecognised('`%s`' % short(e, 50))
+        parts = [('s', texts[0].replace('%%', '%'))]
+        for a, t in zip(args, texts[1:]):
+            parts += key_parts(f, a, depth + 1) \
+                if isinstance(a, (ast.Constant, ast.Name)) else [expr(a)]
+            parts.append(('s', t.replace('%%', '%')))
+        return merge(parts)
+    if isinstance(e, ast.Call) and isinstance(e.func, ast.Attribute) and \
+            e.func.attr == 'format' and \
+            isinstance(e.func.value, ast.Constant) and \
+            isinstance(e.func.value.value, str) and not e.keywords:
+        texts = e.func.value.value.split('{}')
+        if len(texts) != len(e.args) + 1 or any('{' in t or '}' in t
+                                                for t in texts):
+            raise Unrecognised('`%s`' % short(e, 50))
+        parts = [('s', texts[0])]
+        for a, t in zip(e.args, texts[1:]):
+            parts += key_parts(f, a, depth + 1) \
+                if isinstance(a, (ast.Constant, ast.Name)) else [expr(a)]
+            parts.append(('s', t))
+        return merge(parts)
+    return [expr(e)]
+
+
+def _parts_text(parts):
+    return ' + '.join(repr(v) if k == 's' else '<%s>' % v
+                      for k, v in parts) or "''"
+
+
+def r18_4(prog, rep, table, rid='R18.4', kid='R18.11'):
     rep.rule(rid, 'the registry write in ResourceManager.__init__ carries the '
              'result of _init_from_scratch (which filters on every path to '
              'its return); nothing else filters or rebuilds; both init paths '
@@ -607,19 +886,12 @@ def r18_4(prog, rep, table, rid='R18.4'):
 
     # registry get / put of 'rm.<name>'
     def is_rm_key(e):
-        if isinstance(e, ast.BinOp) and isinstance(e.op, ast.Mod) and \
-                isinstance(e.left, ast.Constant) and \
-                isinstance(e.left.value, str):
-            return e.left.value.startswith('rm.')
-        if isinstance(e, ast.JoinedStr) and e.values and \
-                isinstance(e.values[0], ast.Constant):
-            return str(e.values[0].value).startswith('rm.')
-        if isinstance(e, ast.Constant) and isinstance(e.value, str):
-            return e.value.startswith('rm.')
-        if isinstance(e, ast.Name):
-            v = _local_alias(f, e.id)
-            return v is not None and is_rm_key(v)
-        return False
+        try:
+            parts = key_parts(f, e)
+        except Unrecognised:
+            return False
+        return bool(parts) and parts[0][0] == 's' and \
+            parts[0][1].startswith('rm.')
 
     puts, gets = [], []
     for c in calls_in(f.node):
@@ -640,6 +912,33 @@ def r18_4(prog, rep, table, rid='R18.4'):
                                                       len(gets)))
     put = puts[0]
     pn = smap[id(put)]
+    # writer / reader agreement: the key written is the key every other
+    # component reads
+    rep.rule(kid, 'the registry key ResourceManager.__init__ writes the RMInfo '
+             'under is the key it reads it from (same text parts, same '
+             'expressions)', minimum=1)
+    wkey = put.args[0] if isinstance(put, ast.Call) else put.targets[0].slice
+    try:
+        wparts = key_parts(f, wkey)
+        rparts = [(c, key_parts(f, c.args[0])) for c in gets]
+    except Unrecognised as e:
+        raise AnalysisError('UNRECOGNISED-IDIOM %s: registry key %s'
+                            % (f.where, e))
+    for c, parts in rparts:
+        rep.check(parts == wparts, kid, f, 'registry key of `%s` == key of '
+                  'the write (%s)' % (short(c, 40), _parts_text(wparts)),
+                  construct='rm-key', message='ResourceManager.__init__ '
+                  'stores the RMInfo under the registry key %s but looks it up '
+                  'under %s: the components which create their ResourceManager '
+                  'later find no entry, initialise from scratch in their own '
+                  'environment and work on another node list (agent / service '
+                  'nodes are reserved again or offered to tasks)'
+                  % (_parts_text(wparts), _parts_text(parts)),
+                  loc=f.loc(put), history='agent_0 initialises the Slurm RM '
+                  "from scratch and registers it as 'rm.Slurm'; the scheduler "
+                  "of a sub-agent looks up 'rm.slurm', gets nothing and "
+                  're-derives the list in its own sandbox (no ./services file): '
+                  'the service node is offered for task placement')
     payload = put.args[1] if isinstance(put, ast.Call) and len(put.args) > 1 \
         else put.value if isinstance(put, ast.Assign) else None
     pvars = {x.id for x in walk(payload) if isinstance(x, ast.Name)} \
@@ -1327,12 +1626,140 @@ def scratch_contexts(prog, rep):
     return var, out
 
 
-def r18_6(prog, rep, rid='R18.6'):
+def _blocked_key(e):
+    """'blocked_X' when e reads the configured list: <cfg>.get('blocked_X'..),
+    <cfg>['blocked_X'], <cfg>.blocked_X"""
+    name = None
+    if isinstance(e, ast.Call) and isinstance(e.func, ast.Attribute) and \
+            e.func.attr == 'get' and e.args and \
+            isinstance(e.args[0], ast.Constant):
+        name = e.args[0].value
+    elif isinstance(e, ast.Subscript) and isinstance(e.slice, ast.Constant):
+        name = e.slice.value
+    elif isinstance(e, ast.Attribute):
+        name = e.attr
+    if isinstance(name, str) and name.startswith('blocked_'):
+        return name
+    return None
+
+
+def truth(ctx, e, at, val, depth=0):
+    """three-valued truth of expression e at cfg node `at` of ctx when the
+    configured lists are (non-)empty as `val` {'blocked_X': bool} says:
+    True / False / None (not known)"""
+    if e is None or depth > 10:
+        return None
+    if isinstance(e, ast.Constant):
+        return bool(e.value)
+    if isinstance(e, ast.Name):
+        o = ctx.origin(e, at)
+        if o is None or isinstance(o[1], ast.Name):
+            return None
+        return truth(o[0], o[1], o[2], val, depth + 1)
+    k = _blocked_key(e)
+    if k is not None:
+        return val.get(k)
+    if isinstance(e, ast.UnaryOp) and isinstance(e.op, ast.Not):
+        t = truth(ctx, e.operand, at, val, depth + 1)
+        return None if t is None else not t
+    if isinstance(e, ast.BoolOp):
+        ts = [truth(ctx, v, at, val, depth + 1) for v in e.values]
+        if isinstance(e.op, ast.And):
+            return False if any(t is False for t in ts) else \
+                True if all(t is True for t in ts) else None
+        return True if any(t is True for t in ts) else \
+            False if all(t is False for t in ts) else None
+    if isinstance(e, ast.Call) and call_name(e) in ('bool', 'len', 'list',
+                                                    'tuple', 'set', 'sorted') \
+            and len(e.args) == 1 and not e.keywords:
+        return truth(ctx, e.args[0], at, val, depth + 1)
+    if isinstance(e, ast.Call) and call_name(e) in ('any', 'all') and \
+            len(e.args) == 1 and isinstance(e.args[0], (ast.List, ast.Tuple)):
+        ts = [truth(ctx, v, at, val, depth + 1) for v in e.args[0].elts]
+        if call_name(e) == 'all':
+            return False if any(t is False for t in ts) else \
+                True if all(t is True for t in ts) else None
+        return True if any(t is True for t in ts) else \
+            False if all(t is False for t in ts) else None
+    if isinstance(e, ast.Compare) and len(e.ops) == 1:
+        l, r, op = e.left, e.comparators[0], e.ops[0]
+        if isinstance(l, ast.Call) and call_name(l) == 'len' and l.args and \
+                isinstance(r, ast.Constant) and isinstance(r.value, int):
+            t = truth(ctx, l.args[0], at, val, depth + 1)
+            if t is None:
+                return None
+            c = r.value                    # len is 0 (t False) or >= 1 (t True)
+            if isinstance(op, (ast.Gt, ast.NotEq)) and c == 0 or \
+                    isinstance(op, ast.GtE) and c == 1:
+                return t
+            if isinstance(op, (ast.Eq, ast.LtE)) and c == 0 or \
+                    isinstance(op, ast.Lt) and c == 1:
+                return not t
+            return None
+        if isinstance(op, (ast.Eq, ast.NotEq)) and (
+                isinstance(r, (ast.List, ast.Tuple)) and not r.elts):
+            t = truth(ctx, l, at, val, depth + 1)
+            if t is None:
+                return None
+            return (not t) if isinstance(op, ast.Eq) else t
+    if isinstance(e, ast.BinOp) and isinstance(e.op, ast.Add):
+        # concatenation / sum of lengths: empty iff both are
+        ts = [truth(ctx, v, at, val, depth + 1) for v in (e.left, e.right)]
+        return True if any(t is True for t in ts) else \
+            False if all(t is False for t in ts) else None
+    return None
+
+
+def marking_reached(ctx, site, val):
+    """can `site` (cfg node of ctx) be reached from the entry of ctx.f when
+    the tests whose outcome `val` decides only take that outcome?"""
+    g = ctx.g
+    skip = []
+    for n in g.nodes:
+        if n.kind != 'test':
+            continue
+        t = truth(ctx, n.ast, n.id, val)
+        if t is True:
+            skip.append((n.id, 'F'))
+        elif t is False:
+            skip.append((n.id, 'T'))
+    for n in g.nodes:
+        # `for idx in <configured list>`: the body only runs for a non-empty
+        # list
+        if n.kind == 'for' and truth(ctx, n.ast.iter, n.id, val) is False:
+            skip.append((n.id, 'iter'))
+    return site.id in g.reachable(g.entry.id, skip_edges=skip)
+
+
+def _val_text(val):
+    return ', '.join('%s is %s' % (k, 'not empty' if v else 'empty')
+                     for k, v in sorted(val.items()))
+
+
+def _guard_text(ctx, site, top):
+    from ..flow import guards
+    out = []
+    for c, n in ((ctx, site),) + (((top, ctx.callnode),)
+                                  if ctx is not top else ()):
+        for tid, lab in guards(c.g, n.id):
+            a = c.g.nodes[tid].ast
+            out.append('`%s` %s' % (short(a, 40), 'true' if lab == 'T'
+                                    else 'false'))
+    return ', '.join(out) or 'none dominates it alone'
+
+
+def r18_6(prog, rep, rid='R18.6', gid='R18.9'):
     rep.rule(rid, 'blocked cores and GPUs are marked DOWN on every node of the '
              'complete rm_info.node_list: the marking loop ranges over the '
              'whole list (no slice, filter or early exit narrower than what '
              '_filter_nodes may keep) and over the configured blocked list of '
              'the same kind', minimum=4)
+    rep.rule(gid, 'the marking of the blocked cores (GPUs) is reached whenever '
+             'system_architecture.blocked_cores (blocked_gpus) is not empty, '
+             'whether or not the list of the other kind is: the guards in '
+             'front of it, evaluated for empty / non-empty lists, let it pass',
+             minimum=4)
+    okind = {'cores': 'gpus', 'gpus': 'cores'}
     free, busy, down = c01.consts(prog)
     var, ctxs = scratch_contexts(prog, rep)
     top = ctxs[0]
@@ -1454,6 +1881,27 @@ def r18_6(prog, rep, rid='R18.6'):
                       'not yet run self.init_from_scratch(): the node list is '
                       'still empty, nothing is marked' % (f.qual, what),
                       loc=f.loc(stmt), history='any platform with %s' % key)
+            # guard strength: the marking runs whenever the configured list
+            # of its kind is non-empty, whatever the other list holds
+            for other in (False, True):
+                val = {key: True, 'blocked_' + okind[kind]: other}
+                ok = marking_reached(ctx, sn, val) and (
+                    ctx is top or marking_reached(top, ctx.callnode, val))
+                rep.check(ok, gid, f, 'blocked %ss are marked when %s'
+                          % (what, _val_text(val)),
+                          construct='guard:%s:%s' % (kind, 'both' if other
+                                                     else 'alone'),
+                          message='%s does not reach `%s` when %s: the tests '
+                          'which guard the marking (%s) let it pass only for '
+                          'other configurations, so the %ss listed in '
+                          'system_architecture.%s stay FREE on every offered '
+                          'node and are handed to tasks'
+                          % (f.qual, short(stmt, 50), _val_text(val),
+                             _guard_text(ctx, sn, top), what, key),
+                          loc=f.loc(stmt),
+                          history='platform config with %s (core '
+                          'specialisation without blocked GPUs, or the '
+                          'reverse): nothing is marked DOWN' % _val_text(val))
             # the index ranges over the configured list of the same kind
             bad = index_domain(ctx, sn, target.slice, key)
             if bad:
@@ -2352,6 +2800,543 @@ def r18_8(prog, rep, table, rid='R18.8'):
 
 
 # ------------------------------------------------------------------------------
+# R18.10  _get_cores_per_node refuses a node list with different slot counts
+#
+# Guard strength over a finite domain: L = number of DISTINCT counts in the
+# node tuples.  L == 1 is the uniform list; for L >= 2 the entries keep their
+# own counts while one (arbitrary) of them would be announced as
+# cores_per_node.  The tests on that number are evaluated for L = 2 and L = 3
+# (3 stands for "many"): no normal return may be reachable.
+#
+def _derived_names(f, seeds):
+    names = set(seeds)
+    changed = True
+    while changed:
+        changed = False
+        for n in walk(f.node):
+            tg, src = [], None
+            if isinstance(n, ast.Assign):
+                tg, src = n.targets, n.value
+            elif isinstance(n, (ast.AugAssign, ast.AnnAssign)) and \
+                    n.value is not None:
+                tg, src = [n.target], n.value
+            elif isinstance(n, ast.For):
+                tg, src = [n.target], n.iter
+            if src is None or not names_in_expr(src) & names:
+                continue
+            for t in tg:
+                for nm in stores_of(t):
+                    if nm not in names:
+                        names.add(nm)
+                        changed = True
+    return names
+
+
+class Distinct:
+    """truth of the tests of f for a given number L of distinct slot counts"""
+
+    def __init__(self, f, g, derived):
+        self.f, self.g, self.derived = f, g, derived
+
+    def single_def(self, name, at):
+        from ..flow import reaching_defs
+        defs = reaching_defs(self.g, name, at)
+        if len(defs) == 1 and defs[0][1] is not None:
+            return defs[0]
+        return None
+
+    def is_distinct(self, e, at, depth=0):
+        """e is the collection of the distinct counts (set / dict keyed by
+        the count, made of the node tuples)"""
+        from ..flow import reaching_defs
+        if depth > 6:
+            return False
+        if isinstance(e, ast.Name):
+            defs = reaching_defs(self.g, e.id, at)
+            return bool(defs) and all(
+                v is not None and self.is_distinct(v, d.id, depth + 1)
+                for d, v in defs)
+        if isinstance(e, (ast.SetComp, ast.DictComp)):
+            return bool(names_in_expr(e) & self.derived)
+        if isinstance(e, ast.Call) and call_name(e) in KEYED_CTORS and \
+                e.args:
+            return bool(names_in_expr(e) & self.derived)
+        return False
+
+    def num(self, e, at, L, depth=0):
+        if depth > 6:
+            return None
+        if isinstance(e, ast.Constant) and isinstance(e.value, int) and \
+                not isinstance(e.value, bool):
+            return e.value
+        if isinstance(e, ast.Call) and call_name(e) == 'len' and \
+                len(e.args) == 1 and self.is_distinct(e.args[0], at):
+            return L
+        if isinstance(e, ast.Name):
+            d = self.single_def(e.id, at)
+            if d is not None:
+                return self.num(d[1], d[0].id, L, depth + 1)
+        return None
+
+    def _extreme(self, e, which):
+        return isinstance(e, ast.Call) and call_name(e) == which and \
+            len(e.args) == 1 and bool(names_in_expr(e) & self.derived)
+
+    def truth(self, e, at, L, depth=0):
+        if depth > 6:
+            return None
+        if isinstance(e, ast.UnaryOp) and isinstance(e.op, ast.Not):
+            t = self.truth(e.operand, at, L, depth + 1)
+            return None if t is None else not t
+        if isinstance(e, ast.BoolOp):
+            ts = [self.truth(v, at, L, depth + 1) for v in e.values]
+            if isinstance(e.op, ast.And):
+                return False if any(t is False for t in ts) else \
+                    True if all(t is True for t in ts) else None
+            return True if any(t is True for t in ts) else \
+                False if all(t is False for t in ts) else None
+        if isinstance(e, ast.Compare) and len(e.ops) > 1:
+            # a < b <= c: the conjunction of the pairs
+            ts, l = [], e.left
+            for op, r in zip(e.ops, e.comparators):
+                ts.append(self.truth(ast.Compare(left=l, ops=[op],
+                                                 comparators=[r]),
+                                     at, L, depth + 1))
+                l = r
+            return False if any(t is False for t in ts) else \
+                True if all(t is True for t in ts) else None
+        if isinstance(e, ast.Compare) and len(e.ops) == 1:
+            l, r, op = e.left, e.comparators[0], e.ops[0]
+            if isinstance(op, (ast.Eq, ast.NotEq)) and (
+                    self._extreme(l, 'min') and self._extreme(r, 'max') or
+                    self._extreme(l, 'max') and self._extreme(r, 'min')):
+                return (L == 1) == isinstance(op, ast.Eq)
+            a, b = self.num(l, at, L), self.num(r, at, L)
+            if a is None or b is None:
+                return None
+            for kind, fn in ((ast.Eq, lambda: a == b), (ast.NotEq, lambda: a != b),
+                             (ast.Lt, lambda: a < b), (ast.LtE, lambda: a <= b),
+                             (ast.Gt, lambda: a > b), (ast.GtE, lambda: a >= b)):
+                if isinstance(op, kind):
+                    return fn()
+            return None
+        if isinstance(e, ast.Call) and call_name(e) == 'bool' and \
+                len(e.args) == 1:
+            return self.truth(e.args[0], at, L, depth + 1)
+        if self.is_distinct(e, at):
+            return L > 0
+        n = self.num(e, at, L)
+        if n is not None:
+            return n != 0
+        if isinstance(e, ast.Name):
+            d = self.single_def(e.id, at)
+            if d is not None:
+                return self.truth(d[1], d[0].id, L, depth + 1)
+        return None
+
+
+def r18_10(prog, rep, table, rid='R18.10'):
+    rep.rule(rid, '_get_cores_per_node returns a count only for a uniform '
+             'node list: with two or more distinct slot counts in the node '
+             'tuples no path reaches a normal return (the guard in front of '
+             'the return, evaluated over the number of distinct counts)',
+             minimum=1)
+    base = prog.cls(*RM)
+    funcs = {}
+    for K in [base] + sorted(table.values(), key=lambda k: k.where):
+        f = prog.find_method(K, '_get_cores_per_node')
+        if f is not None:
+            funcs[f.where] = f
+    if not funcs:
+        raise AnalysisError('anchor ResourceManager._get_cores_per_node not '
+                            'found')
+    for where, f in sorted(funcs.items()):
+        rep.saw(f)
+        params = [p for p in f.params if p not in ('self', 'cls')]
+        if not params:
+            raise AnalysisError('UNRECOGNISED-IDIOM %s: no parameter for the '
+                                'node tuples' % f.where)
+        g = cfg_of(f)
+        derived = _derived_names(f, {params[0]})
+        dd = Distinct(f, g, derived)
+        witness = None
+        for L in (2, 3):
+            skip, unknown = [], []
+            for n in g.nodes:
+                if n.kind != 'test':
+                    continue
+                t = dd.truth(n.ast, n.id, L)
+                if t is True:
+                    skip.append((n.id, 'F'))
+                elif t is False:
+                    skip.append((n.id, 'T'))
+                elif names_in_expr(n.ast) & derived:
+                    unknown.append(n)
+            reach = g.reachable(g.entry.id, skip_edges=skip)
+            if g.exit.id not in reach:
+                continue
+            unknown = [n for n in unknown if n.id in reach]
+            if unknown:
+                raise AnalysisError('UNRECOGNISED-IDIOM %s: cannot evaluate '
+                                    '`%s` for a node list with %d distinct '
+                                    'slot counts' % (f.where, short(
+                                        unknown[0].ast, 60), L))
+            witness = witness or L
+        tests = [short(n.ast, 50) for n in g.nodes if n.kind == 'test' and
+                 names_in_expr(n.ast) & derived]
+        rep.check(witness is None, rid, f, 'no normal return for 2 or more '
+                  'distinct slot counts (tests: %s)' % (', '.join(tests) or '-'),
+                  construct='uniform-or-refused',
+                  message='%s returns a cores-per-node value for a node list '
+                  'whose tuples carry %d different slot counts (%s): the '
+                  'value announced as rm_info.cores_per_node is one of them, '
+                  'picked arbitrarily, while every node entry is sized by its '
+                  'own count - the pilot offers nodes which do not have the '
+                  'announced number of cores instead of refusing the '
+                  'non-uniform node file'
+                  % (f.qual, witness or 0, 'the tests in front of the return '
+                     'are: %s' % ', '.join('`%s`' % t for t in tests)
+                     if tests else 'there is no test on the counts'),
+                  loc=f.loc(), history='Torque / CCM / LSF without '
+                  'cores_per_node in the config, node file n1 x4, n2 x2, '
+                  'n3 x4: accepted with cores_per_node = 2 (or 4), the '
+                  'entries of n1 and n3 have 4 cores, the one of n2 has 2')
+
+
+# ------------------------------------------------------------------------------
+# R18.12  the hardware-thread multiplier reaches the node tuples
+#
+# rm_info.threads_per_core (SMT) is the number of logical cores per physical
+# core.  A resource manager which consults it (LSF compares the slot count of
+# a host with it, PBSPro hands it to the parser) counts in logical cores; the
+# node tuples it hands to _get_node_list must then carry the multiplier: as
+# the argument of a parameter of _parse_nodefile from which the count of the
+# returned tuples derives, or as a part of the count the RM puts into the
+# tuples itself.
+#
+SMT_ATTR = 'threads_per_core'
+LOG_RECV = ('self._log', 'self._prof', 'log', 'logger')
+
+
+def _count_params(parser):
+    """parameters of the node file parser from which the count element of the
+    tuples it returns derives (data flow, also through the dict the counts
+    are collected in)"""
+    from ..flow import Deps
+    params = [p for p in parser.params if p not in ('self', 'cls')]
+    d = Deps(parser.node, implicit=False)
+    out = set()
+    for n in walk(parser.node):
+        if isinstance(n, ast.Tuple) and len(n.elts) == 2 and \
+                isinstance(n.ctx, ast.Load):
+            dep = d.expr_depends(n.elts[1])
+            out |= {p for p in params if p in dep}
+    return out
+
+
+def _in_log_call(f, node):
+    for c in calls_in(f.node):
+        cn = call_name(c)
+        if any(cn.startswith(r + '.') for r in LOG_RECV) and any(
+                x is node for a in list(c.args) + [k.value for k in c.keywords]
+                for x in walk(a, nested=True)):
+            return True
+    return False
+
+
+def r18_12(prog, rep, table, rid='R18.12'):
+    rep.rule(rid, 'a resource manager which consults rm_info.threads_per_core '
+             '(outside log statements) hands it to the builder of its node '
+             'tuples: to a parameter of _parse_nodefile from which the slot '
+             'count of the returned tuples derives, or into the count of the '
+             'tuples it makes itself', minimum=2)
+    base = prog.cls(*RM)
+    seen = set()
+    for name, K in sorted(table.items()):
+        f = prog.find_method(K, 'init_from_scratch')
+        if f is None or f.cls is base or f.where in seen:
+            continue
+        seen.add(f.where)
+        params = [p for p in f.params if p != 'self']
+        if not params:
+            continue                                   # R18.1 reports
+        var = params[0]
+        reads = [n for n in walk(f.node)
+                 if _info_attr(n, var) == SMT_ATTR and
+                 isinstance(getattr(n, 'ctx', ast.Load()), ast.Load) and
+                 not _in_log_call(f, n)]
+        if not reads:
+            continue
+        rep.saw(f)
+        smap = I.stmt_node_map(cfg_of(f))
+        carried, parses, direct = [], [], False
+        for c in calls_in(f.node):
+            cn = call_name(c)
+            if cn.endswith('._parse_nodefile'):
+                parser = prog.resolve_call(f, c, K)
+                if parser is None:
+                    raise AnalysisError('%s: _parse_nodefile does not resolve '
+                                        'for %s' % (f.where, K.name))
+                if any(isinstance(a, ast.Starred) for a in c.args) or \
+                        any(k.arg is None for k in c.keywords):
+                    raise AnalysisError('UNRECOGNISED-IDIOM %s: `%s`'
+                                        % (f.where, short(c, 60)))
+                fp = _count_params(parser)
+                parses.append((c, parser, fp))
+                for p, v in bind_args(parser, c).items():
+                    if p in fp and any(SMT_ATTR in rd for _, rd in
+                                       embedded_reads(f, var, v)):
+                        carried.append((c, p))
+            elif cn == 'self._get_node_list':
+                builder = prog.resolve_call(f, c, K)
+                if builder is None:
+                    continue
+                for p, v in bind_args(builder, c).items():
+                    if isinstance(v, ast.Name) and v.id == var:
+                        continue
+                    if any(SMT_ATTR in rd for _, rd in
+                           embedded_reads(f, var, v)):
+                        direct = True
+        ok = bool(carried) or direct
+        nofac = [p for c, p, fp in parses if not fp]
+        why = ('the slot count %s returns derives from none of its parameters'
+               % nofac[0].qual if nofac else
+               'the node tuples come from %s, none of which is given it'
+               % ', '.join('`%s`' % short(c, 50) for c, p, fp in parses)
+               if parses else 'the node tuples are made without it')
+        rep.check(ok, rid, f, '%s: rm_info.%s (read by `%s`) reaches the slot '
+                  'count of the node tuples' % (K.name, SMT_ATTR,
+                                                short(smap[id(reads[0])].ast
+                                                      if id(reads[0]) in smap
+                                                      else reads[0], 50)),
+                  construct='%s:smt' % K.name,
+                  message='%s.%s consults rm_info.%s (`%s`) but %s: the '
+                  'entries of rm_info.node_list get one core per line of the '
+                  'node file (physical cores) where the configured number of '
+                  'logical cores (lines x threads per core) is expected, '
+                  'cores_per_node is detected too small by the same factor, '
+                  'and a comparison of the slot count with threads_per_core '
+                  'compares different units'
+                  % (K.name, f.name, SMT_ATTR,
+                     short(smap[id(reads[0])].ast if id(reads[0]) in smap
+                           else reads[0], 50), why), loc=f.loc(reads[0]),
+                  history='%s with system_architecture.smt = 4, host file '
+                  'with 6 lines per compute node: the entries have 6 cores '
+                  'instead of 24, cores_per_node = 6' % K.name)
+
+
+# ------------------------------------------------------------------------------
+# R18.13  cursor tokenisers consume exactly the separator they searched for
+#
+# A loop which cuts a string into chunks with
+#       idx = s.find(SEP) ; chunk = s[a:idx] ; s = s[idx + k:]
+# drops, between two chunks, the k characters from the match on and the first
+# `a` characters of the rest.  SEP is what was matched, so a + k == len(SEP):
+# less leaves separator characters in the next chunk, more drops characters
+# nobody looked at (the head of the next name).  The sum is what matters: the
+# tree keeps the last character of ')+(' in the rest (k = 2) because the chunk
+# slice starts behind the '(' (a = 1), as it has to for the first chunk.
+#
+SEARCH = ('find', 'index')
+
+
+def _int_const(prog, f, e):
+    v = prog.fold(f.module, e, f.cls)
+    if isinstance(v, int) and not isinstance(v, bool):
+        return v
+    return None
+
+
+def cursor_sites(prog, f):
+    """[(find call, sep, [(a, chunk slice)], [(k, advance stmt)])] of f;
+    raises Unrecognised for a cursor whose use cannot be read"""
+    out = []
+    for n in walk(f.node):
+        if not (isinstance(n, ast.Assign) and len(n.targets) == 1 and
+                isinstance(n.targets[0], ast.Name) and
+                isinstance(n.value, ast.Call) and
+                isinstance(n.value.func, ast.Attribute) and
+                n.value.func.attr in SEARCH and
+                isinstance(n.value.func.value, ast.Name) and
+                len(n.value.args) == 1):
+            continue
+        idx, s = n.targets[0].id, n.value.func.value.id
+        sep = n.value.args[0]
+        if isinstance(sep, ast.Name):
+            a = _local_alias(f, sep.id)
+            sep = a if a is not None else sep
+        sep = prog.fold(f.module, sep, f.cls)
+        if len([d for d in walk(f.node) if isinstance(d, ast.Assign) and any(
+                isinstance(t, ast.Name) and t.id == idx
+                for t in d.targets)]) != 1:
+            continue                       # several cursors share the name
+        # slices of s bounded by idx (or by a local computed from it)
+        cursor = {idx}
+        grew = True
+        while grew:
+            grew = False
+            for d in walk(f.node):
+                if isinstance(d, ast.Assign) and len(d.targets) == 1 and \
+                        isinstance(d.targets[0], ast.Name) and \
+                        d.targets[0].id not in cursor and \
+                        d.targets[0].id != s and \
+                        names_in_expr(d.value) & cursor and \
+                        _local_alias(f, d.targets[0].id) is d.value:
+                    cursor.add(d.targets[0].id)
+                    grew = True
+        chunks, advances, other = [], [], []
+        for m in walk(f.node):
+            if not (isinstance(m, ast.Subscript) and
+                    isinstance(m.value, ast.Name) and m.value.id == s and
+                    isinstance(m.slice, ast.Slice) and
+                    names_in_expr(m.slice) & cursor):
+                continue
+            sl = m.slice
+            if sl.step is not None:
+                other.append(m)
+                continue
+
+            def offset(e):
+                """k of `idx + k` / `idx` / `k + idx` / `idx - k`"""
+                if isinstance(e, ast.Name):
+                    if e.id == idx:
+                        return 0
+                    al = _local_alias(f, e.id)
+                    return offset(al) if al is not None else None
+                if isinstance(e, ast.BinOp) and \
+                        isinstance(e.op, (ast.Add, ast.Sub)):
+                    l, r = offset(e.left), _int_const(prog, f, e.right)
+                    if l is not None and r is not None:
+                        return l + r if isinstance(e.op, ast.Add) else l - r
+                    if isinstance(e.op, ast.Add):
+                        l, r = _int_const(prog, f, e.left), offset(e.right)
+                        if l is not None and r is not None:
+                            return l + r
+                return None
+
+            if sl.upper is not None and sl.lower is None or \
+                    sl.upper is not None and \
+                    not names_in_expr(sl.lower) & cursor:
+                # s[a:idx]
+                a = 0 if sl.lower is None else _int_const(prog, f, sl.lower)
+                if offset(sl.upper) != 0 or a is None or a < 0:
+                    other.append(m)
+                else:
+                    chunks.append((a, m))
+            elif sl.upper is None and sl.lower is not None:
+                k = offset(sl.lower)
+                if k is None:
+                    other.append(m)
+                else:
+                    advances.append((k, m))
+            else:
+                other.append(m)
+        if not chunks and not advances and not other:
+            continue                       # the position is used otherwise
+        if other or not isinstance(sep, str) or not chunks or not advances:
+            raise Unrecognised('`%s` in %s: %s' % (
+                short(n, 50), f.qual, 'slice `%s`' % short(other[0], 40)
+                if other else 'separator is not a constant string'
+                if not isinstance(sep, str) else 'no chunk / advance slice'))
+        out.append((n, sep, chunks, advances))
+    return out
+
+
+def r18_13(prog, rep, table, rid='R18.13'):
+    rep.rule(rid, 'a loop of a resource manager which cuts a string into '
+             'chunks with idx = s.find(SEP); s[a:idx]; s = s[idx + k:] drops '
+             'exactly the separator between two chunks: a + k == len(SEP)',
+             minimum=0)
+    base = prog.cls(*RM)
+    n_sites = 0
+    seen = set()
+    for K in [base] + sorted(set(table.values()), key=lambda k: k.where):
+        for mname, f in sorted(K.methods.items()):
+            if f.where in seen:
+                continue
+            seen.add(f.where)
+            try:
+                sites = cursor_sites(prog, f)
+            except Unrecognised as e:
+                raise AnalysisError('UNRECOGNISED-IDIOM %s: cursor %s'
+                                    % (f.where, e))
+            for find, sep, chunks, advances in sites:
+                rep.saw(f)
+                n_sites += 1
+                # a chunk which is cleaned afterwards may keep separator
+                # characters: only "more than the separator" is decidable
+                stripped = _post_stripped(f, chunks)
+                for a, cm in chunks:
+                    for k, am in advances:
+                        ok = a + k == len(sep) or (stripped and
+                                                   a + k < len(sep))
+                        rep.check(ok, rid, f, '`%s` + `%s` drop the %d '
+                                  'characters of %r' % (short(cm, 30),
+                                                        short(am, 30),
+                                                        len(sep), sep),
+                                  construct='cursor:%s' % sep,
+                                  message='%s searches for %r (%d characters) '
+                                  'but between two chunks it drops %d: `%s` '
+                                  'skips %d from the match on and `%s` skips '
+                                  'the first %d of the rest.  %s - the names '
+                                  'parsed from the second chunk on are not '
+                                  'the names of the allocated nodes'
+                                  % (f.qual, sep, len(sep), a + k,
+                                     short(am, 40), k, short(cm, 40), a,
+                                     'Every chunk after the first loses its '
+                                     'first %d character(s)' % (a + k - len(sep))
+                                     if a + k > len(sep) else
+                                     'Every chunk after the first starts with '
+                                     '%d character(s) of the separator'
+                                     % (len(sep) - a - k)),
+                                  loc=f.loc(am),
+                                  history='PBSPro, exec_vnode = '
+                                  '(x3001c0s1b0n0:ncpus=8)+(x3001c0s1b1n0:'
+                                  'ncpus=8): the second node is offered as '
+                                  '`3001c0s1b1n0`, which is not a host of the '
+                                  'allocation')
+    rep.stat('cursor_tokenisers', n_sites)
+
+
+def _post_stripped(f, chunks):
+    """is a chunk value cleaned by strip / lstrip / replace afterwards (as
+    part of the slice expression, through the name it is bound to, or through
+    a container it is put into)?"""
+    clean = ('strip', 'lstrip', 'rstrip', 'replace', 'removeprefix',
+             'removesuffix', 'sub')
+    names = set()
+    for n in walk(f.node):
+        if isinstance(n, ast.Assign) and any(
+                any(x is cm for x in walk(n.value)) for a, cm in chunks):
+            for t in n.targets:
+                names |= set(stores_of(t))
+    changed = True
+    while changed:
+        before = len(names)
+        names = _derived_names(f, names)
+        for c in calls_in(f.node):
+            if isinstance(c.func, ast.Attribute) and \
+                    c.func.attr in SEQ_ADD and \
+                    isinstance(c.func.value, ast.Name) and any(
+                        names_in_expr(a) & names or any(
+                            x is cm for x in walk(a) for _, cm in chunks)
+                        for a in c.args):
+                names.add(c.func.value.id)
+        changed = len(names) != before
+    for c in calls_in(f.node):
+        if isinstance(c.func, ast.Attribute) and c.func.attr in clean:
+            v = c.func.value
+            if any(x is cm for a, cm in chunks for x in walk(v)):
+                return True
+            if names_in_expr(v) & names:
+                return True
+            if any(names_in_expr(a) & names for a in c.args) and \
+                    c.func.attr == 'sub':
+                return True
+    return False
+
+
+# ------------------------------------------------------------------------------
 #
 def run(prog, rep, tier):
     rep.decided = ('every resource manager of the factory table obtains '
@@ -2370,7 +3355,13 @@ def run(prog, rep, tier):
         'after the RM built it, and over the configured blocked list of the '
         'same kind; an RM which drops node-file entries by their slot count '
         '(LSF pseudo nodes) does not pass `cpn` to _parse_nodefile, so the '
-        'test sees the counts detected in the file.')
+        'test sees the counts detected in the file; the marking of blocked '
+        'cores / GPUs is reached whenever the list of its kind is not empty; '
+        '_get_cores_per_node refuses node tuples with different slot counts; '
+        'the registry key written is the key read; an RM which consults '
+        'threads_per_core hands it to a count-bearing parameter of the node file '
+        'parser; the exec_vnode cursor loop drops exactly the separator it '
+        'searched for between two chunks.')
     rep.undecided = ('slot counting and name syntax of node files for '
         'arbitrary contents (which names / counts mark an LSF login or batch '
         'node, PBSPro vnodes); that the batch system allocated '
@@ -2400,6 +3391,9 @@ def run(prog, rep, tier):
     rep.attempt(r18_6, prog, rep)
     rep.attempt(r18_7, prog, rep, table)
     rep.attempt(r18_8, prog, rep, table)
+    rep.attempt(r18_10, prog, rep, table)
+    rep.attempt(r18_12, prog, rep, table)
+    rep.attempt(r18_13, prog, rep, table)
     if tier == 'thorough':
         # sweep: any other class in the package deriving from ResourceManager
         # (not in the table) obeys R18.1 as well
@@ -2532,6 +3526,64 @@ _FK_CPN = ("        if not rm_info.cores_per_node:\n"
            "            rm_info.cores_per_node = detected_cores\n\n")
 _FK_NODES = ("        nodes   = [('localhost', rm_info.cores_per_node)\n"
              "                   for _ in range(n_nodes)]\n")
+
+# round 4 -----------------------------------------------------------------------
+_PBS = _RMD + 'pbspro.py'
+_BLK_IF = "        if blocked_cores or blocked_gpus:\n"
+_CPN_SET = "        cores_per_node = set([node[1] for node in nodes])\n"
+_CPN_IF  = "        if len(cores_per_node) == 1:\n"
+_CPN_BODY = ("        if len(cores_per_node) == 1:\n"
+             "            cores_per_node = cores_per_node.pop()\n"
+             "            self._log.debug('found %d [%d cores]', len(nodes), cores_per_node)\n"
+             "            return cores_per_node\n"
+             "\n"
+             "        else:\n"
+             "            raise ValueError('non-uniform node list, cores_per_node invalid')\n")
+_REG_GET = "        rm_info = reg.get('rm.%s' % self.name.lower())\n"
+_REG_PUT = "            reg.put('rm.%s' % self.name.lower(), rm_info.as_dict())\n"
+_PNF_RET = "            return [(node, cpn * smt) for node, cpn in nodes.items()]\n"
+_PBS_FIND  = "            idx = rhs.find(')+(')\n"
+_PBS_CHUNK = "            node_str = rhs[1:idx]\n"
+_PBS_ADV   = "            rhs = rhs[idx + 2:]\n"
+_PBS_LOOP  = ("        while True:\n"
+              "            idx = rhs.find(')+(')\n"
+              "            node_str = rhs[1:idx]\n"
+              "            nodes_list.append(node_str)\n"
+              "            rhs = rhs[idx + 2:]\n"
+              "            if idx < 0:\n"
+              "                break\n")
+_RES_BLOCKS = ("        if agent_nodes:\n"
+               "\n"
+               "            if not rm_info.agent_node_list:\n"
+               "                for _ in range(agent_nodes):\n"
+               "                    rm_info.agent_node_list.append(rm_info.node_list.pop())\n"
+               "\n"
+               "            assert agent_nodes == len(rm_info.agent_node_list)\n"
+               "\n"
+               "        if service_nodes:\n"
+               "\n"
+               "            if not rm_info.service_node_list:\n"
+               "                for _ in range(service_nodes):\n"
+               "                    rm_info.service_node_list.append(rm_info.node_list.pop())\n"
+               "\n"
+               "            assert service_nodes == len(rm_info.service_node_list)\n")
+
+
+def _res_helper(take="rm_info.node_list.pop()"):
+    return ("        def _reserve(reserved, n_nodes) -> None:\n"
+            "\n"
+            "            if not n_nodes:\n"
+            "                return\n"
+            "\n"
+            "            if not reserved:\n"
+            "                for _ in range(n_nodes):\n"
+            "                    reserved.append(%s)\n"
+            "\n"
+            "            assert n_nodes == len(reserved)\n"
+            "\n"
+            "        _reserve(rm_info.agent_node_list,   agent_nodes)\n"
+            "        _reserve(rm_info.service_node_list, service_nodes)\n" % take)
+
 
 MUTATIONS = [
     dict(name='R18.1 Debug RM builds the list by hand, all indices 0', rules=('R18.1',), edits=[
@@ -2724,6 +3776,55 @@ MUTATIONS = [
     dict(name='R18.8 base class applies the configured lfs size after the RM built the list', rules=('R18.8',), edits=[
         (_B, _B_LFS, ""),
         (_B, _B_CALL, _B_CALL + "        if self._cfg.lfs_size_per_node:\n    " + _B_LFS)]),
+    # round 4
+    dict(name='R18.3 reservation in a nested helper which copies the last node', rules=('R18.3',), edits=[
+        (_B, _RES_BLOCKS, _res_helper("rm_info.node_list[-1]"))]),
+    dict(name='R18.3 reservation in a nested helper, emptiness check before its calls', rules=('R18.3',), edits=[
+        (_B, _EMPTY, ""),
+        (_B, _RES_BLOCKS, _EMPTY + "\n" + _res_helper())]),
+    dict(name='R18.9 seed C18-g4: blocked resources only marked when both lists are configured', rules=('R18.9',), edits=[
+        (_B, _BLK_IF, "        if blocked_cores and blocked_gpus:\n")]),
+    dict(name='R18.9 marking only when cores are blocked', rules=('R18.9',), edits=[
+        (_B, _BLK_IF, "        if blocked_cores:\n")]),
+    dict(name='R18.9 marking guard by length, both lists required', rules=('R18.9',), edits=[
+        (_B, _BLK_IF, "        if len(blocked_cores) > 0 and len(blocked_gpus) > 0:\n")]),
+    dict(name='R18.9 marking guard hoisted into a local, both lists required', rules=('R18.9',), edits=[
+        (_B, _BLK_IF, "        both = bool(blocked_cores) and bool(blocked_gpus)\n        if both:\n")]),
+    dict(name='R18.9 GPU marking skipped when no core is blocked', rules=('R18.9',), edits=[
+        (_B, _MARK_GPUS, "\n                if not blocked_cores:\n                    continue\n" + _MARK_GPUS)]),
+    dict(name='R18.10 seed C18-g1: non-uniform node file accepted (>= 1)', rules=('R18.10',), edits=[
+        (_B, _CPN_IF, "        if len(cores_per_node) >= 1:\n")]),
+    dict(name='R18.10 any non-empty set of counts accepted', rules=('R18.10',), edits=[
+        (_B, _CPN_IF, "        if cores_per_node:\n")]),
+    dict(name='R18.10 uniformity test through a hoisted length, != 0', rules=('R18.10',), edits=[
+        (_B, _CPN_IF, "        n_counts = len(cores_per_node)\n        if n_counts != 0:\n")]),
+    dict(name='R18.10 up to two different counts accepted', rules=('R18.10',), edits=[
+        (_B, _CPN_IF, "        if 0 < len(cores_per_node) <= 2:\n")]),
+    dict(name='R18.11 seed C18-g3: registry written under the key without lower()', rules=('R18.11',), edits=[
+        (_B, _REG_PUT, "            reg.put('rm.%s' % self.name, rm_info.as_dict())\n")]),
+    dict(name='R18.11 registry read under the key without lower()', rules=('R18.11',), edits=[
+        (_B, _REG_GET, "        rm_info = reg.get('rm.%s' % self.name)\n")]),
+    dict(name='R18.11 registry written under an upper-case key through a local', rules=('R18.11',), edits=[
+        (_B, _REG_PUT, "            key = 'rm.' + self.name.upper()\n            reg.put(key, rm_info.as_dict())\n")]),
+    dict(name='R18.11 registry written under rm.info.<name>', rules=('R18.11',), edits=[
+        (_B, _REG_PUT, "            reg.put('rm.info.%s' % self.name.lower(), rm_info.as_dict())\n")]),
+    dict(name='R18.12 seed C18-g6: LSF parses the host file without the SMT multiplier', rules=('R18.12',), edits=[
+        (_LSF, _LSF_PARSE, "        nodes = self._parse_nodefile(hostfile)\n")]),
+    dict(name='R18.12 LSF passes smt=1', rules=('R18.12',), edits=[
+        (_LSF, _LSF_PARSE, "        nodes = self._parse_nodefile(hostfile, smt=1)\n")]),
+    dict(name='R18.12 LSF hands the GPU thread count to the parser', rules=('R18.12',), edits=[
+        (_LSF, _LSF_PARSE, "        nodes = self._parse_nodefile(hostfile, smt=rm_info.threads_per_gpu)\n")]),
+    dict(name='R18.12 _parse_nodefile no longer multiplies by smt', rules=('R18.12',), edits=[
+        (_B, _PNF_RET, "            return [(node, cpn) for node, cpn in nodes.items()]\n")]),
+    dict(name='R18.13 seed C18-g5: exec_vnode cursor advanced by the separator length', rules=('R18.13',), edits=[
+        (_PBS, _PBS_ADV, "            rhs = rhs[idx + 3:]\n")]),
+    dict(name='R18.13 exec_vnode cursor advanced by one', rules=('R18.13',), edits=[
+        (_PBS, _PBS_ADV, "            rhs = rhs[idx + 1:]\n")]),
+    dict(name='R18.13 exec_vnode chunk starts two characters in', rules=('R18.13',), edits=[
+        (_PBS, _PBS_CHUNK, "            node_str = rhs[2:idx]\n")]),
+    dict(name='R18.13 exec_vnode chunk keeps the bracket of the separator', rules=('R18.13',), edits=[
+        (_PBS, _PBS_CHUNK, "            node_str = rhs[:idx]\n"),
+        (_PBS, "        nodes_list = []\n", "        nodes_list = []\n        rhs = rhs[1:]\n")]),
 ]
 
 SILENT = [
@@ -2870,4 +3971,74 @@ SILENT = [
     dict(name='Torque detects the cores per node after the list is built (entries are sized by the node tuples)', edits=[
         (_RMD + 'torque.py', "        if not rm_info.cores_per_node:\n            rm_info.cores_per_node = self._get_cores_per_node(nodes)\n\n" + _GNL,
          _GNL + "\n        if not rm_info.cores_per_node:\n            rm_info.cores_per_node = self._get_cores_per_node(nodes)\n")]),
+    # round 4
+    dict(name='seed C18-r7 shape: reservation blocks as one nested helper with early return', edits=[
+        (_B, _RES_BLOCKS, _res_helper())]),
+    dict(name='agent list through a local alias, service nodes by extend() of pops', edits=[
+        (_B, "                    rm_info.agent_node_list.append(rm_info.node_list.pop())", "                    agents = rm_info.agent_node_list\n                    agents.append(rm_info.node_list.pop())"),
+        (_B, "                for _ in range(service_nodes):\n                    rm_info.service_node_list.append(rm_info.node_list.pop())\n",
+             "                rm_info.service_node_list.extend([rm_info.node_list.pop()\n                                                  for _ in range(service_nodes)])\n")]),
+    dict(name='blocked guard with the operands swapped', edits=[
+        (_B, _BLK_IF, "        if blocked_gpus or blocked_cores:\n")]),
+    dict(name='blocked guard hoisted into a local', edits=[
+        (_B, _BLK_IF, "        any_blocked = bool(blocked_cores or blocked_gpus)\n        if any_blocked:\n")]),
+    dict(name='blocked guard by length', edits=[
+        (_B, _BLK_IF, "        if len(blocked_cores) > 0 or len(blocked_gpus) > 0:\n")]),
+    dict(name='blocked guard in De Morgan form', edits=[
+        (_B, _BLK_IF, "        if not (not blocked_cores and not blocked_gpus):\n")]),
+    dict(name='blocked guard on the concatenated lists', edits=[
+        (_B, _BLK_IF, "        if blocked_cores + blocked_gpus:\n")]),
+    dict(name='uniformity test as an early raise, set comprehension', edits=[
+        (_B, _CPN_SET, "        core_counts = {node[1] for node in nodes}\n"),
+        (_B, _CPN_BODY, "        if len(core_counts) != 1:\n"
+                        "            raise ValueError('non-uniform node list, cores_per_node invalid')\n\n"
+                        "        cores_per_node = core_counts.pop()\n"
+                        "        self._log.debug('found %d [%d cores]', len(nodes), cores_per_node)\n\n"
+                        "        return cores_per_node\n")]),
+    dict(name='uniformity test through a hoisted length', edits=[
+        (_B, _CPN_IF, "        n_counts = len(cores_per_node)\n        if n_counts == 1:\n")]),
+    dict(name='uniformity test split: too many counts, then no count', edits=[
+        (_B, _CPN_BODY, "        if len(cores_per_node) > 1:\n"
+                        "            raise ValueError('non-uniform node list, cores_per_node invalid')\n\n"
+                        "        if not cores_per_node:\n"
+                        "            raise ValueError('non-uniform node list, cores_per_node invalid')\n\n"
+                        "        return cores_per_node.pop()\n")]),
+    dict(name='uniformity test by min / max of the counts', edits=[
+        (_B, _CPN_SET, "        counts = [node[1] for node in nodes]\n"),
+        (_B, _CPN_BODY, "        if not counts or min(counts) != max(counts):\n"
+                        "            raise ValueError('non-uniform node list, cores_per_node invalid')\n\n"
+                        "        self._log.debug('found %d [%d cores]', len(nodes), counts[0])\n"
+                        "        return counts[0]\n")]),
+    dict(name='registry key as f-string at the write', edits=[
+        (_B, _REG_PUT, "            reg.put(f'rm.{self.name.lower()}', rm_info.as_dict())\n")]),
+    dict(name='registry key by concatenation at the read, format() at the write', edits=[
+        (_B, _REG_GET, "        rm_info = reg.get('rm.' + self.name.lower())\n"),
+        (_B, _REG_PUT, "            reg.put('rm.{}'.format(self.name.lower()), rm_info.as_dict())\n")]),
+    dict(name='lower-cased name in a local used by both keys', edits=[
+        (_B, _REG_GET, "        lname   = self.name.lower()\n        rm_info = reg.get('rm.%s' % lname)\n"),
+        (_B, _REG_PUT, "            reg.put(f'rm.{lname}', rm_info.as_dict())\n")]),
+    dict(name='class name spelled out at the write', edits=[
+        (_B, _REG_PUT, "            reg.put('rm.%s' % type(self).__name__.lower(), rm_info.as_dict())\n")]),
+    dict(name='LSF passes cpn=0 and smt positionally', edits=[
+        (_LSF, _LSF_PARSE, "        nodes = self._parse_nodefile(hostfile, 0, smt)\n")]),
+    dict(name='LSF hands rm_info.threads_per_core to the parser directly', edits=[
+        (_LSF, _LSF_PARSE, "        nodes = self._parse_nodefile(hostfile, smt=rm_info.threads_per_core)\n")]),
+    dict(name='LSF multiplies the slot counts itself', edits=[
+        (_LSF, _LSF_PARSE, "        nodes = self._parse_nodefile(hostfile)\n"
+                           "        nodes = [(name, slots * (smt or 1)) for name, slots in nodes]\n")]),
+    dict(name='PBSPro folds the thread count into cpn', edits=[
+        (_PBS, _PBS_PARSE, "            nodes = self._parse_nodefile(os.environ['PBS_NODEFILE'],\n"
+                           "                                         cpn=rm_info.cores_per_node *\n"
+                           "                                             (rm_info.threads_per_core or 1))\n")]),
+    dict(name='exec_vnode: outer bracket stripped first, cursor advanced by the whole separator', edits=[
+        (_PBS, "        nodes_list = []\n", "        nodes_list = []\n        rhs = rhs[1:]\n"),
+        (_PBS, _PBS_CHUNK, "            node_str = rhs[:idx]\n"),
+        (_PBS, _PBS_ADV, "            rhs = rhs[idx + 3:]\n")]),
+    dict(name='exec_vnode: cursor position and separator through locals', edits=[
+        (_PBS, _PBS_FIND, "            sep = ')+('\n            idx = rhs.find(sep)\n"),
+        (_PBS, _PBS_ADV, "            pos = idx + 2\n            rhs = rhs[pos:]\n")]),
+    dict(name='exec_vnode: chunks by split()', edits=[
+        (_PBS, _PBS_LOOP, "        nodes_list = rhs[1:-1].split(')+(')\n")]),
+    dict(name='exec_vnode: chunk appended without a temporary', edits=[
+        (_PBS, _PBS_CHUNK + "            nodes_list.append(node_str)\n", "            nodes_list.append(rhs[1:idx])\n")]),
 ]
